@@ -160,6 +160,11 @@ def _count_calls(n, kind):
     if kind == "chain":
         for _ in range(n):
             y = y * 1.0001 + 0.0001
+    elif kind == "wide_stack":
+        y = sg.stack([x * (1.0 + 0.001 * i) for i in range(n)], 0).sum(0)
+    elif kind == "wide_concat":
+        y = sg.concat([sg.tanh(x) for _ in range(n)], 0)
+        y = y.reshape((n, 2)).sum(0)
     else:
         for _ in range(n):
             y = y * 0.5 + y * 0.5
@@ -179,7 +184,7 @@ def _count_calls(n, kind):
 
 @st.composite
 def cost_cases(draw):
-    return {"n": draw(st.sampled_from([1000, 2000, 4000])), "kind": draw(st.sampled_from(["chain", "diamonds"]))}
+    return {"n": draw(st.sampled_from([1000, 2000, 4000])), "kind": draw(st.sampled_from(["chain", "diamonds", "wide_stack", "wide_concat"]))}
 
 
 def check_cost(c, rec):
@@ -244,7 +249,7 @@ def check_loop(c, rec):
 def subchecks():
     return [SubCheck("graphs", check_graph, lambda: graph_cases(DEPTHS_Q), quick=14, thorough=0, shards_quick=8, shards_thorough=1),
             SubCheck("graphs_deep", check_graph, lambda: graph_cases(DEPTHS_T), quick=0, thorough=40, shards_quick=1, shards_thorough=16),
-            SubCheck("cost", check_cost, cost_cases, quick=6, thorough=12, shards_quick=2, shards_thorough=4),
+            SubCheck("cost", check_cost, cost_cases, quick=8, thorough=12, shards_quick=3, shards_thorough=4),
             SubCheck("untracked_loops", check_loop, lambda: loop_cases([10, 100, 1000, 3000]), quick=25, thorough=0, shards_quick=4),
             SubCheck("untracked_loops_long", check_loop, lambda: loop_cases([1000, 3000, 10000]), quick=0, thorough=40,
                      shards_quick=1, shards_thorough=8)]
